@@ -31,7 +31,11 @@ func New() *Log {
 func (l *Log) Add(kind string, kv ...any) int {
 	e := Event{"ev": kind}
 	for i := 0; i+1 < len(kv); i += 2 {
-		e[kv[i].(string)] = clean(kv[i+1])
+		k := kv[i].(string)
+		if k == "n" || k == "t" || k == "ev" {
+			panic("trace: reserved event field " + k + " (sequence number / time / kind) used as argument of " + kind)
+		}
+		e[k] = clean(kv[i+1])
 	}
 	l.mu.Lock()
 	l.seq++
